@@ -422,7 +422,39 @@ pub fn run_c13(ctx: &Ctx) -> i32 {
         if pr.files.len() < 2 {
             return;
         }
-        let obs = rng.below(pr.files.len());
+        let mut pr = pr;
+        let mut obs = rng.below(pr.files.len());
+        let dense = i % 3 == 0;
+        if dense {
+            // a "dense dependent": an extra observed file that imports EVERY other item and uses each one in every
+            // way a file can depend on another (types in all positions, containers, `Type.ELEMENT` defaults, constants):
+            // whatever the library reads from the other files beyond key and kind shows up as a changed result
+            let keys: Vec<String> = pr.files.iter().map(|f| f.doc.key()).collect();
+            let mut t = String::from("package zz.obs; ");
+            for k in &keys {
+                t.push_str(&format!("import {k}; "));
+            }
+            let as_iface = rng.chance(1, 2);
+            t.push_str(if as_iface { "interface Obs { " } else { "parcelable Obs { " });
+            for (n, k) in keys.iter().enumerate() {
+                let simple = k.rsplit('.').next().unwrap_or("X");
+                let el = rng.pick_str(gen::ELEMENT_NAMES);
+                if as_iface {
+                    t.push_str(&format!("{k} m{n}(in {simple} a, out {k}[] b, in List<{simple}> c); oneway void o{n}(in Map<String,{k}> m); const int C{n} = 1; "));
+                } else {
+                    t.push_str(&format!("{simple} f{n} = {simple}.{el}; {k} g{n} = {simple}.{el}; List<{k}> l{n}; {simple}[] a{n}; Map<String,{simple}> m{n}; const String S{n} = {simple}.{el}; "));
+                }
+            }
+            t.push('}');
+            let doc = pr.files[0].doc.clone();
+            let mut d2 = doc;
+            d2.package = vec!["zz".into(), "obs".into()];
+            d2.imports = keys.iter().map(|k| k.split('.').map(|s| s.to_string()).collect()).collect();
+            d2.item.name = "Obs".into();
+            pr.files.push(proj::ProjFile { id: "obs".into(), doc: d2, text: t });
+            obs = pr.files.len() - 1;
+            st.inc("projects_with_a_dense_dependent_as_observed_file");
+        }
         let obs_id = pr.files[obs].id.clone();
         let imported = keys_imported_by(&pr.files[obs].doc);
         let base = pr.as_pairs();
